@@ -27,7 +27,8 @@ for root, dirs, files in os.walk(dst):
             deleted.append(rel)
 print("NEW:"); [print("  ", x) for x in sorted(new)]
 print("CHANGED:"); [print("  ", x) for x in sorted(changed)]
-print("DELETED-in-agent:"); [print("  ", x) for x in sorted(deleted)]
+if "--deleted" in sys.argv:
+    print("DELETED-in-agent:"); [print("  ", x) for x in sorted(deleted)]
 if "--copy-new" in sys.argv:
     for rel in new:
         os.makedirs(os.path.dirname(os.path.join(dst, rel)), exist_ok=True)
